@@ -810,6 +810,9 @@ func (e *Enc) evalCall(env *Env, n *ast.CallExpr) TV {
 		if e.opaqueReads && sf.Opaque && len(sf.Params) == 1 {
 			return e.opaqueSpec(env, sf, c)
 		}
+		if e.opaqueNames[name] {
+			return e.opaqueScalarSpec(env, sf, c)
+		}
 		return e.eval(c, sf.Body)
 	}
 	e.evalFail(env, "unknown function %q", name)
@@ -867,6 +870,64 @@ func (e *Enc) opaqueSpec(env *Env, sf *SpecFunc, c *Env) TV {
 	t := T{fmt.Sprintf("(u_%s %s %s %s)", sf.Name, arr.S, s.Off.S, s.Len.S), srt.sort}
 	if srt.sort == "BSeq" && e.loopDry == 0 {
 		e.opaqueSeqs = append(e.opaqueSeqs, opaqueSeqAt{t.S, len(e.lines)})
+	}
+	return TV{V: Sc{t}, Ty: srt.ty}
+}
+
+// opaqueScalarSpec: a check may ask for a spec function of scalar arguments to
+// be treated as uninterpreted (props: "opaque_specs"); its declared facts
+// (specfact) are assumed for every application. Fewer facts than the
+// definition: sound, and it keeps big closed-form definitions out of queries
+// that only need them to be functions.
+func (e *Enc) opaqueScalarSpec(env *Env, sf *SpecFunc, c *Env) TV {
+	var args []T
+	for _, p := range sf.Params {
+		v, _ := e.materialize(c, c.names[p], types.Typ[types.Uint64])
+		sc, ok := v.(Sc)
+		if !ok {
+			e.evalFail(env, "opaque spec %s needs scalar arguments", sf.Name)
+		}
+		args = append(args, sc.T)
+	}
+	srt, ok := e.specSorts[sf.Name]
+	if !ok {
+		nl := len(e.lines)
+		saved := e.opaqueNames
+		e.opaqueNames = nil
+		r := e.eval(c, sf.Body)
+		e.opaqueNames = saved
+		v, t := e.materialize(c, r, nil)
+		e.lines = e.lines[:nl]
+		sc, isSc := v.(Sc)
+		if !isSc {
+			e.evalFail(env, "opaque spec %s must return a scalar", sf.Name)
+		}
+		srt = specSort{sort: sc.Sort, ty: t}
+		if e.specSorts == nil {
+			e.specSorts = map[string]specSort{}
+		}
+		e.specSorts[sf.Name] = srt
+		var sorts []string
+		for _, a := range args {
+			sorts = append(sorts, a.Sort)
+		}
+		if e.ufDecls == nil {
+			e.ufDecls = map[string]string{}
+		}
+		e.ufDecls["us_"+sf.Name] = fmt.Sprintf("(declare-fun us_%s (%s) %s)", sf.Name, strings.Join(sorts, " "), sc.Sort)
+	}
+	t := T{"(us_" + sf.Name, srt.sort}
+	for _, a := range args {
+		t.S += " " + a.S
+	}
+	t.S += ")"
+	if sf.Fact != nil && !e.factsDone[t.S] {
+		if e.factsDone == nil {
+			e.factsDone = map[string]bool{}
+		}
+		e.factsDone[t.S] = true
+		f := e.asBool(c, e.eval(c, sf.Fact))
+		e.emit("(assert " + f.S + ")")
 	}
 	return TV{V: Sc{t}, Ty: srt.ty}
 }
